@@ -67,29 +67,30 @@ theorem annInd {P : AnnExpr → Prop}
     (opt : ∀ e, P e → P (.opt e))
     (union : ∀ es, (∀ e ∈ es, P e) → P (.union es))
     (bor : ∀ a b, P a → P b → P (.bor a b))
-    (str : ∀ e, P e → P (.str e)) (name : ∀ n, P (.name n)) : ∀ e, P e
+    (str : ∀ e, P e → P (.str e)) (name : ∀ n, P (.name n)) (dotted : ∀ n p, P (.dotted n p)) : ∀ e, P e
   | .cls c => cls c | .none => none | .anyT => anyT | .newtype n c => newtype n c | .bare c => bare c
   | .gen o c args => gen o c args fun e _ =>
-      annInd cls none anyT newtype bare gen tup tupE tupV unpack star lit typ ann final classVar opt union bor str name e
+      annInd cls none anyT newtype bare gen tup tupE tupV unpack star lit typ ann final classVar opt union bor str name dotted e
   | .tup o ms => tup o ms fun e _ =>
-      annInd cls none anyT newtype bare gen tup tupE tupV unpack star lit typ ann final classVar opt union bor str name e
+      annInd cls none anyT newtype bare gen tup tupE tupV unpack star lit typ ann final classVar opt union bor str name dotted e
   | .tupE o => tupE o
-  | .tupV o e => tupV o e (annInd cls none anyT newtype bare gen tup tupE tupV unpack star lit typ ann final classVar opt union bor str name e)
-  | .unpack e => unpack e (annInd cls none anyT newtype bare gen tup tupE tupV unpack star lit typ ann final classVar opt union bor str name e)
-  | .star e => star e (annInd cls none anyT newtype bare gen tup tupE tupV unpack star lit typ ann final classVar opt union bor str name e)
+  | .tupV o e => tupV o e (annInd cls none anyT newtype bare gen tup tupE tupV unpack star lit typ ann final classVar opt union bor str name dotted e)
+  | .unpack e => unpack e (annInd cls none anyT newtype bare gen tup tupE tupV unpack star lit typ ann final classVar opt union bor str name dotted e)
+  | .star e => star e (annInd cls none anyT newtype bare gen tup tupE tupV unpack star lit typ ann final classVar opt union bor str name dotted e)
   | .lit os => lit os
-  | .typ o e => typ o e (annInd cls none anyT newtype bare gen tup tupE tupV unpack star lit typ ann final classVar opt union bor str name e)
-  | .ann e k => ann e k (annInd cls none anyT newtype bare gen tup tupE tupV unpack star lit typ ann final classVar opt union bor str name e)
-  | .final e => final e (annInd cls none anyT newtype bare gen tup tupE tupV unpack star lit typ ann final classVar opt union bor str name e)
-  | .classVar e => classVar e (annInd cls none anyT newtype bare gen tup tupE tupV unpack star lit typ ann final classVar opt union bor str name e)
-  | .opt e => opt e (annInd cls none anyT newtype bare gen tup tupE tupV unpack star lit typ ann final classVar opt union bor str name e)
+  | .typ o e => typ o e (annInd cls none anyT newtype bare gen tup tupE tupV unpack star lit typ ann final classVar opt union bor str name dotted e)
+  | .ann e k => ann e k (annInd cls none anyT newtype bare gen tup tupE tupV unpack star lit typ ann final classVar opt union bor str name dotted e)
+  | .final e => final e (annInd cls none anyT newtype bare gen tup tupE tupV unpack star lit typ ann final classVar opt union bor str name dotted e)
+  | .classVar e => classVar e (annInd cls none anyT newtype bare gen tup tupE tupV unpack star lit typ ann final classVar opt union bor str name dotted e)
+  | .opt e => opt e (annInd cls none anyT newtype bare gen tup tupE tupV unpack star lit typ ann final classVar opt union bor str name dotted e)
   | .union es => union es fun e _ =>
-      annInd cls none anyT newtype bare gen tup tupE tupV unpack star lit typ ann final classVar opt union bor str name e
+      annInd cls none anyT newtype bare gen tup tupE tupV unpack star lit typ ann final classVar opt union bor str name dotted e
   | .bor a b => bor a b
-      (annInd cls none anyT newtype bare gen tup tupE tupV unpack star lit typ ann final classVar opt union bor str name a)
-      (annInd cls none anyT newtype bare gen tup tupE tupV unpack star lit typ ann final classVar opt union bor str name b)
-  | .str e => str e (annInd cls none anyT newtype bare gen tup tupE tupV unpack star lit typ ann final classVar opt union bor str name e)
+      (annInd cls none anyT newtype bare gen tup tupE tupV unpack star lit typ ann final classVar opt union bor str name dotted a)
+      (annInd cls none anyT newtype bare gen tup tupE tupV unpack star lit typ ann final classVar opt union bor str name dotted b)
+  | .str e => str e (annInd cls none anyT newtype bare gen tup tupE tupV unpack star lit typ ann final classVar opt union bor str name dotted e)
   | .name n => name n
+  | .dotted n p => dotted n p
 termination_by e => sizeOf e
 
 /-! ### 1. the structural equality tests decide `=` -/
@@ -427,6 +428,9 @@ theorem agree_main (e : AnnExpr) :
   | name n =>
     intro _ _ _ au
     simp [astEval, rtEval, swapOpt, tnorm]
+  | dotted n p =>
+    intro _ _ _ au
+    simp [astEval, rtEval, swapOpt, tnorm]
 
 /-! ### 5. def headers -/
 
@@ -436,6 +440,20 @@ theorem lookups_eq (env : NameEnv) :
     visLookup env = globalsLookup env ∧ defaultLookup env = globalsLookup env := by
   refine ⟨funext fun n => ?_, rfl⟩
   simp [visLookup, scopeLookup, globalsLookup]
+
+theorem attrKey_ge (k a : Nat) : attrBase ≤ attrKey k a := by
+  unfold attrKey; omega
+
+theorem chain_congr (l1 l2 : Lookup) (hattr : ∀ n, attrBase ≤ n → l1 n = l2 n) (p : List Nat) :
+    ∀ t, chain l1 t p = chain l2 t p := by
+  induction p with
+  | nil => intro t; cases t <;> rfl
+  | cons a p ih =>
+    intro t
+    cases t <;> simp only [chain]
+    rename_i k
+    rw [hattr _ (attrKey_ge k a)]
+    cases l2 (attrKey k a) <;> simp [ih]
 
 theorem resolveVL_congr (l1 l2 : Lookup) (es : List AnnExpr)
     (ih : ∀ e ∈ es, (∀ n ∈ e.outerNames, l1 n = l2 n) → resolveV l1 e = resolveV l2 e)
@@ -448,8 +466,8 @@ theorem resolveVL_congr (l1 l2 : Lookup) (es : List AnnExpr)
     rw [ih e (by simp) fun n hn => h n (.inl hn),
       ihl (fun x hx => ih x (by simp [hx])) fun n hn => h n (.inr hn)]
 
-/-- two lookups that agree on the names outside strings resolve the expression alike -/
-theorem resolveV_congr (l1 l2 : Lookup) (e : AnnExpr) :
+/-- two lookups that agree on the names outside strings — and on attributes — resolve the expression alike -/
+theorem resolveV_congr (l1 l2 : Lookup) (hattr : ∀ n, attrBase ≤ n → l1 n = l2 n) (e : AnnExpr) :
     (∀ n ∈ e.outerNames, l1 n = l2 n) → resolveV l1 e = resolveV l2 e := by
   induction e using annInd with
   | gen o c args ih | tup o args ih | union args ih =>
@@ -465,7 +483,19 @@ theorem resolveV_congr (l1 l2 : Lookup) (e : AnnExpr) :
   | name n =>
     intro h
     simp only [resolveV, h n (by simp [AnnExpr.outerNames])]
+  | dotted n p =>
+    intro h
+    have hn := h n (by simp [AnnExpr.outerNames])
+    simp only [resolveV, resolveDotted, hn]
+    cases l2 n with
+    | none => rfl
+    | some t => simp only [chain_congr l1 l2 hattr p t]
   | _ => intro h; simp_all [resolveV, AnnExpr.outerNames]
+
+theorem withAttrs_attr (attrs : Bindings) (f g : Lookup) (n : Nat) (h : attrBase ≤ n) :
+    withAttrs attrs f n = withAttrs attrs g n := by
+  have : ¬ n < attrBase := by omega
+  simp [withAttrs, this]
 
 theorem astEvalL_resolveV (look : Lookup) (es : List AnnExpr)
     (ih : ∀ e ∈ es, ∀ au, astEval look au (resolveV look e) = astEval look au e) :
@@ -504,6 +534,11 @@ theorem starCount_resolveV (look : Lookup) (e : AnnExpr) : (resolveV look e).sta
     cases h : look n with
     | none => rfl
     | some t => cases t <;> simp [NameTarget.toAnn, AnnExpr.starCount]
+  | dotted n p =>
+    simp only [resolveV]
+    cases h : resolveDotted look n p with
+    | none => rfl
+    | some t => cases t <;> simp [NameTarget.toAnn, AnnExpr.starCount]
   | _ => simp_all [resolveV, AnnExpr.starCount]
 
 theorem starUL_resolveV (look : Lookup) (es : List AnnExpr)
@@ -524,6 +559,11 @@ theorem starU_resolveV (look : Lookup) (e : AnnExpr) : (resolveV look e).starU =
   | name n =>
     simp only [resolveV]
     cases h : look n with
+    | none => rfl
+    | some t => cases t <;> simp [NameTarget.toAnn, AnnExpr.starU]
+  | dotted n p =>
+    simp only [resolveV]
+    cases h : resolveDotted look n p with
     | none => rfl
     | some t => cases t <;> simp [NameTarget.toAnn, AnnExpr.starU]
   | _ => simp_all [resolveV, AnnExpr.starU]
@@ -877,6 +917,12 @@ theorem astEval_resolveV (look : Lookup) (e : AnnExpr) :
     cases h : look n with
     | none => rfl
     | some t => cases t <;> simp [NameTarget.toAnn, astEval, h, NameTarget.ty]
+  | dotted n p =>
+    intro au
+    simp only [resolveV]
+    cases h : resolveDotted look n p with
+    | none => rfl
+    | some t => cases t <;> simp [NameTarget.toAnn, astEval, h, NameTarget.ty]
   | star e ih => intro au; simp [resolveV, astEval]
   | _ => intro au; simp [resolveV]
 
@@ -888,7 +934,8 @@ theorem annOK_now (env : NameEnv) (e : AnnExpr) (h : e.starU = false) (hn : stab
   simp only [annObject, Bool.false_eq_true, if_false]
   rw [vis_eq_rt env e au h, (lookups_eq env).1]
   have : resolveV (pyLookup env) e = resolveV (globalsLookup env) e := by
-    apply resolveV_congr
+    apply resolveV_congr (pyLookup env) (globalsLookup env)
+      (fun n hn => by unfold pyLookup globalsLookup; exact withAttrs_attr env.attrs _ _ n hn)
     intro n hm
     simp only [stableNames, List.all_eq_true, decide_eq_true_eq] at hn
     rw [hn n hm, (lookups_eq env).1]
